@@ -512,7 +512,7 @@ class C17(Prop):
     level = 'fault_enumeration'
     rule = ('Enumerated: for 5 modules (tiny, unicode, with error nodes, ~70 lines, empty): EVERY truncation offset of the pickle '
             '(quick: every offset of pickles < 700 bytes, every 3rd / 11th (seed-rotated) of the larger ones; thorough: all), single-byte '
-            'flips at every 17th (quick: 61st) offset x 2 masks (oracle: no exception; a flip that yields a valid pickle of another tree is not claimed), empty file, garbage, partial overwrite (prefix of another entry's file as written by the library + tail of this one; prefix of another pickle + suffix of the old one) at 16 '
+            'flips at every 17th (quick: 61st) offset x 2 masks (oracle: no exception; a flip that yields a valid pickle of another tree is not claimed), empty file, garbage, partial overwrite (prefix of the file of another entry as written by the library + tail of this one; prefix of another pickle + suffix of the old one) at 16 '
             'offsets, valid pickles of 6 foreign objects, leftover *.tmp / zero-length siblings, version/cache directory missing or '
             'replaced by a file; exception injection (ENOSPC, EACCES, EIO, ENOENT) at EVERY call index of open / file write / file read / pickle.dump / '
             'pickle.load / os.makedirs / os.path.getmtime / os.utime / os.remove / os.scandir / os.listdir reached under the private '
